@@ -710,7 +710,17 @@ func ruleBufSize(c *Ctx, a *udpAnchors, rule string) {
 func rootParam(c *Ctx, v ssa.Value, rf *ssa.Function, typ string) bool {
 	g, _ := c.P.AllFrom(v, deepF, func(x ssa.Value) bool {
 		pa, isP := baseRoot(x).(*ssa.Parameter)
-		return isP && eng.Root(pa.Parent()) == rf && (typ == "" || pa.Type().String() == typ)
+		if !isP || eng.Root(pa.Parent()) != rf {
+			return false
+		}
+		if typ == "" || pa.Type().String() == typ {
+			return true
+		}
+		// a field of that type of a parameter that groups the association's client (natClient{addr, conn}), passed by value
+		if _, isStruct := pa.Type().Underlying().(*types.Struct); isStruct && x.Type().String() == typ && strings.HasPrefix(eng.TypeName(pa.Type()), "service.") {
+			return true
+		}
+		return false
 	})
 	return g
 }
